@@ -122,7 +122,9 @@ def oracle (inits : List Server) (specs : List Spec) (trace res dump : String) :
   (ok, s!"{why1}{if sameRows then "" else s!" final-rows:impl={svCore dump}:replayed={absCore aF}"}{if noDup then "" else " double-commit"}{if finished then "" else " not-terminated"}{if readersOk then "" else " reader-failed"}")
 
 def handle (args out : List String) : Verdict :=
-  match args with
+  -- `sched1`: the same operations run as goroutines of one component (one lock manager, one connection pool);
+  -- the model does not distinguish the two (every acquisition has its own token, every operation its own WATCH)
+  match (match args with | "sched1" :: rest => "sched" :: rest | a => a) with
   | ["sched", initS, clientS, eventS] =>
     let inits := if initS = "-" then some [] else (initS.splitOn ",").mapM parseServer
     let specs := (clientS.splitOn ",").mapM parseClient
